@@ -7,7 +7,7 @@ FL = ["-looplimit", "1000000", "-maxinstrs", "400000000", "-maxpaths", "2000000"
 def jobs(ctx):
     q = ctx.tier == "quick"
     out = []
-    for n in (0, 1, 2, 3, 4) if q else (0, 1, 2, 3, 4, 5, 6):
+    for n in (0, 1, 2, 3, 4) if q else (0, 1, 2, 3, 4, 5):
         out.append(Job(REL, PKG, H, "VerifC23ResolvePosition", {"n": n}, tag="resolvePosition n=%d" % n, cost=8.0 ** n, deadline=None if q else 3000))
     out.append(Job(REL, PKG, H, "VerifC23ResolvePosition", {"n": 2}, tag="resolvePosition twin", twin=True))
     for steps in (1, 2):
@@ -28,7 +28,7 @@ def describe(ctx):
                        "involved): no panic, each open/change publishes exactly one diagnostics message carrying that message's version and URI, diagnostic ranges name existing lines "
                        "and stay inside the line counted in UTF-16 units, definition fails on closed documents and otherwise answers from the latest content with locations that "
                        "delimit the identifier.",
-        "bounds": {"resolvePosition": "documents of <=4 (6) bytes, line<=3, character<=5", "histories": "<=2 messages, 2 documents, 5 texts; scripted: open, optional definition, change or re-open with two declarations swapped, definition (17 paths); one document with LALR conflicts on rules written over two lines"},
+        "bounds": {"resolvePosition": "documents of <=4 (5) bytes, line<=3, character<=5", "histories": "<=2 messages, 2 documents, 5 texts; scripted: open, optional definition, change or re-open with two declarations swapped, definition (17 paths); one document with LALR conflicts on rules written over two lines"},
         "outside": ["JSON-RPC framing and the goroutine schedule of the asynchronous handler chain (the executor has no threads): the 'schedules' part of the quantifier is not addressed",
                     "arbitrary document contents in histories"],
         "trusted": ["go/ssa", "symgo executor (zap logger calls are interpreted)", "z3", "harness UTF-8/UTF-16 reference"],
